@@ -233,19 +233,25 @@ func (m *model) apply(e event) {
 		m.st[c] = stRemoved
 		m.cur[c] = -1
 		m.prog[c] = nil
-	case evAddProg:
+	case evAddProg: // AddTableProgress(t,10) + AddPartitionProgress(t,p0,5)
 		p := m.prog[c]["t"]
 		p[1] = 10
 		m.prog[c]["t"] = p
-	case evUpdProg:
-		p, ok := m.prog[c]["t"]
-		if !ok {
-			p = [2]int64{0, -1}
+		q := m.prog[c]["t/p0"]
+		q[1] = 5
+		m.prog[c]["t/p0"] = q
+	case evUpdProg: // UpdateTableProgress(t,1) + UpdatePartitionProgress(t,p0,1)
+		for _, k := range []string{"t", "t/p0"} {
+			p, ok := m.prog[c][k]
+			if !ok {
+				p = [2]int64{0, -1}
+			}
+			p[0]++
+			m.prog[c][k] = p
 		}
-		p[0]++
-		m.prog[c]["t"] = p
 	case evRemProg:
 		delete(m.prog[c], "t")
+		delete(m.prog[c], "t/p0")
 	}
 }
 
@@ -297,6 +303,7 @@ type sys struct {
 	base     [2]int64       // Threads_connected, Threads_running at start
 	nq       [maxConns + 1]uint64
 	snapshot []string // Processes() snapshots taken by evObserve, in order
+	snaps    []snap   // every snapshot object taken, re-rendered at the end
 }
 
 func counter(name string) int64 {
@@ -377,25 +384,44 @@ func (s *sys) apply(e event, endIdx int) (newIdx int, err error) {
 		switch e.Kind {
 		case evAddProg:
 			s.pl.AddTableProgress(pid, "t", 10)
+			s.pl.AddPartitionProgress(pid, "t", "p0", 5)
 		case evUpdProg:
 			s.pl.UpdateTableProgress(pid, "t", 1)
+			s.pl.UpdatePartitionProgress(pid, "t", "p0", 1)
 		default:
 			s.pl.RemoveTableProgress(pid, "t")
 		}
 	case evObserve:
-		s.snapshot = append(s.snapshot, s.render())
+		s.takeSnap()
+		s.snapshot = append(s.snapshot, s.snaps[len(s.snaps)-1].str)
 	}
 	return newIdx, nil
 }
 
-func (s *sys) render() string {
-	ps := s.pl.Processes()
+func (s *sys) render() string { return renderProcs(s.pl.Processes()) }
+
+// snap is a Processes() result kept by the harness: it must not change after it was returned.
+type snap struct {
+	obj []sql.Process
+	str string
+}
+
+func (s *sys) takeSnap() {
+	obj := s.pl.Processes()
+	s.snaps = append(s.snaps, snap{obj: obj, str: renderProcs(obj)})
+}
+
+func renderProcs(in []sql.Process) string {
+	ps := append([]sql.Process{}, in...)
 	sort.Slice(ps, func(i, j int) bool { return ps[i].Connection < ps[j].Connection })
 	var parts []string
 	for _, p := range ps {
 		pm := map[string][2]int64{}
 		for k, v := range p.Progress {
 			pm[k] = [2]int64{v.Done, v.Total}
+			for pk, pv := range v.PartitionsProgress {
+				pm[k+"/"+pk] = [2]int64{pv.Done, pv.Total}
+			}
 		}
 		parts = append(parts, fmt.Sprintf("%d:%s:%s:%d:%s", p.Connection, p.Command, p.Query, p.QueryPid, progStr(pm)))
 	}
@@ -410,6 +436,11 @@ type diff struct {
 }
 
 func (s *sys) compare(m *model, last event) *diff {
+	for i, sn := range s.snaps {
+		if now := renderProcs(sn.obj); now != sn.str {
+			return &diff{"snapshot-isolated", "snapshot-mutated-after-return", fmt.Sprintf("snapshot %d now reads %s", i, now), "unchanged: " + sn.str, map[string]string{}}
+		}
+	}
 	if got, want := s.render(), m.snapshot(); got != want {
 		return &diff{"process-list", "wrong-list", got, want, map[string]string{"after": evNames[last.Kind]}}
 	}
@@ -495,6 +526,9 @@ func seqStep(r *core.Run, alpha []event) func(h []int) (string, bool) {
 			}
 			_, err := s.apply(e, endIdx)
 			m.apply(e)
+			if err == nil {
+				s.takeSnap()
+			}
 			if i < len(h)-1 {
 				continue
 			}
